@@ -164,17 +164,24 @@ Fixpoint split_nl (s : str) : list str :=
                    end
   end.
 
-(* s.splitlines() restricted to "\n" separators (the only line boundary in printable text):
-   like split("\n") but without the final empty piece *)
-Definition splitlines (s : str) : list str :=
+(* s.splitlines() on ASCII text: a line ends at \n, \r, \r\n (one boundary), \v, \f, FS, GS, RS; no final empty piece.
+   (str.splitlines also cuts at NEL, U+2028, U+2029: outside ASCII, outside this model.) *)
+Definition is_linebreak (c : ascii) : bool :=
+  let n := nat_of_ascii c in ((10 <=? n) && (n <=? 13)) || ((28 <=? n) && (n <=? 30)).
+Definition cr : ascii := "013".
+
+Fixpoint splitlines_aux (cur : str) (s : str) : list str :=      (* cur = current line, reversed *)
   match s with
-  | [] => []
-  | _ => let ps := split_nl s in
-         match rev ps with
-         | [] :: r => rev r
-         | _ => ps
-         end
+  | [] => match cur with [] => [] | _ => [rev cur] end
+  | c :: r =>
+      if is_linebreak c then
+        rev cur :: match r with
+                   | d :: r' => if ceq c cr && ceq d nl then splitlines_aux [] r' else splitlines_aux [] r
+                   | [] => []
+                   end
+      else splitlines_aux (c :: cur) r
   end.
+Definition splitlines (s : str) : list str := splitlines_aux [] s.
 
 (* does s start with "):" *)
 Definition starts_pc (s : str) : bool :=
